@@ -459,7 +459,7 @@ func genSkInput(r *Rng, nfn *int, known []*fdef, budget int) (skInput, []*fdef) 
 
 // ------------------------------------------------------------------ running sessions
 
-const prelude = `func deep(n){deep(n+1)}; acc=0; zz=0; func id1(x){x}; idl = x => x; func dec1(x){x-1}; mobj = {"f": x => x*2}`
+const prelude = `func deep(n){deep(n+1)}; acc=0; zz=0; mset = macro(nm, val){quote(unquote(nm) = unquote(val))}; func id1(x){x}; idl = x => x; func dec1(x){x-1}; mobj = {"f": x => x*2}`
 
 // number of on/off differences outside the known constructs seen so far: after a few dozen the
 // exploration stops early (the violation is established; under a broken tree each one may cost a deadline)
@@ -830,6 +830,30 @@ func (g *vgen) stmts(fn string, ints, loops []string, strs []string, d, n int, i
 			a := g.stmts(fn, ints, loops, strs, d, 1, inLoop)
 			b := g.stmts(fn, ints, loops, strs, d, 1, inLoop)
 			out = append(out, "if "+g.cond(all)+" {"+strings.Join(a, "; ")+"} else {"+strings.Join(b, "; ")+"}")
+		case k < 57 && len(all) > 0:
+			// the name held in a register is RE-BOUND other than by = / := / ++: an inner named function of that name
+			// (whose body does not mention it), an inner lambda parameter of that name, a macro-produced assignment,
+			// del(name), an assignment under catch(); and it is read where a stale live register would show: as the left
+			// bound of a range whose right bound assigns it, as the value of a list / condition loop that changes it later
+			v := all[g.r.Intn(len(all))]
+			switch g.r.Intn(8) {
+			case 0:
+				out = append(out, fmt.Sprintf("func %s(){%d}; println(%s)", v, g.r.Intn(9), v))
+			case 1:
+				out = append(out, fmt.Sprintf("%slz = func(%s){%s*2}; println(%slz(%d), %s)", fn, v, v, fn, g.r.Intn(9), v))
+			case 2:
+				out = append(out, fmt.Sprintf("mset(%s, %s); println(%s)", v, g.intExpr(all, 1), v))
+			case 3:
+				out = append(out, fmt.Sprintf("println(del(%s)); println(catch(%s))", v, v))
+			case 4:
+				out = append(out, fmt.Sprintf("println(catch(%s = %s), %s)", v, g.intExpr(all, 1), v))
+			case 5:
+				out = append(out, fmt.Sprintf("println([10,11,12,13,14,15,16,17,18][%s %% 3:(%s = %d)], %s)", v, v, 4+g.r.Intn(4), v))
+			case 6:
+				out = append(out, fmt.Sprintf("println(for %sq=[1,2,3] {if %sq==3 {%s=%d; break}; %s})", fn, fn, v, 100+g.r.Intn(9), v))
+			default:
+				out = append(out, fmt.Sprintf("%sw=0; println(for %sw<3 {%sw=%sw+1; if %sw==3 {%s=%d; continue}; %s})", fn, fn, fn, fn, fn, v, 200+g.r.Intn(9), v))
+			}
 		case k < 59 && len(all) > 0:
 			// a bare register (parameter / loop variable) as KEY of a large (6 entries) and a small (2 entries) map:
 			// lookup, store, delete, key of a map literal, membership through keys; and as array element in comparisons
@@ -1008,6 +1032,7 @@ var gapCorpus = []struct {
 	{"loopvar-coincides-outer", []string{`k=5;func f(){for k=0:3{}};f();k`}, 0},
 	{"loopvar-read-by-callee", []string{`func g(){i};for i=0:3{println(g())}`}, 0},
 	{"name-read-by-eval-string", []string{`func f(n){eval("n")};f(3)`}, 0},
+	{"name-assigned-by-eval-string", []string{`func f(n){eval("n = 9"); n};f(3)`}, 0},
 }
 
 // sessions that were failing on the pinned tree and are repaired (must now agree on/off)
@@ -1028,6 +1053,9 @@ var fixedCorpus = [][]string{
 	{`func f(n){{n:print("a"), n:print("b")}};f(1)`}, {`for n=0:2{println({n:1, n:2})}`},
 	{`m={1:"a",2:"b",3:"c",4:"d",5:"e"}; for i=1:6 {print(m[i])}`}, {`m={1:"a",2:"b",3:"c",4:"d",5:"e"}; f=func(k){m[k]}; f(3)`},
 	{`m={1:"a",2:"b",3:"c",4:"d",5:"e"}; for i=1:3 {del(m[i])}; m`}, {`func f(k){[[k] == [3], [k] < [4], {k:1}]}; f(3)`},
+	{`func f(n){ func n(){1}; n }; f(5)`}, {`for i=3 { func i(){7}; println(i) }`}, {`func f(n){ g = func(n){n*2}; [g(3), n] }; f(5)`},
+	{`func f(n){ mset(n, 9); n }; f(5)`}, {`func f(n){[10,11,12,13,14,15][n:(n=4)]}; f(1)`}, {`func f(n){for k=[1,2,3]{if k==3{n=100;break};n}}; f(5)`},
+	{`func f(n){w=0; for w<3 {w=w+1; if w==3 {n=100; continue}; n}}; f(5)`},
 	{`func f(n){ n + (n := 5) }; f(1)`}, {`for i = 3 { println(i + (i := 10)) }`}, {`func h(a,b,c){ r = a - (b + (a := c)); [r,a] }; h(10,2,3)`},
 	{`m = macro(){ id = func(k){k}; quote(unquote(id(3))) }; m()`}, {`m2 = macro(z){ f = func(k){k*2+1}; quote(unquote(z) + unquote(f(4))) }; println(m2(10))`},
 	{`func f(n) { n + idl(n = 10) }; f(1)`}, {`func f(n){ n * dec1(n = n - 1) }; f(5)`}, {`for i = 3 { println(i * id1(i = i + 10)) }`},
